@@ -184,6 +184,59 @@ func (c *persistComp) Exec(t []string) (extra []string, out string, eff bool) {
 			}
 		}
 		return []string{"content=" + content}, "ok", true
+	case "golden":
+		// golden k=<0..2>: a directory holding the current on-disk format as every build so far has written it, laid
+		// down key by key with raw badger (not through the driver under test): nodes, a wallet link, balances, a trial
+		// balance.  Opening it changes nothing and everything is read back - an existing pool's data survive an upgrade.
+		k, _ := strconv.Atoi(get("k"))
+		c.storeComp.Close()
+		os.RemoveAll(c.dir)
+		db, err := badger.Open(diskOpts(c.dir))
+		if err != nil {
+			return nil, "err raw-open", false
+		}
+		two := 2
+		seen := time.Unix(0, 1000)
+		put := func(key string, v interface{}) {
+			if err == nil {
+				err = rawSet(db, key, v)
+			}
+		}
+		put("vip:version", &two)
+		put("vip:node:a", &store.Node{ID: "a", Kind: "geth", IsHost: true, LastSeen: seen})
+		put("vip:node:b", &store.Node{ID: "b", Kind: "geth", IsHost: true, LastSeen: seen})
+		acctX, acctY := store.Account("X"), store.Account("Y")
+		put("vip:account:a", &acctX)
+		put("vip:balance:X", &store.Balance{Account: "X", Credit: *big.NewInt(7)})
+		switch k {
+		case 0:
+			put("vip:trial:b", &store.Balance{Credit: *big.NewInt(3)})
+		case 1:
+			put("vip:account:b", &acctX)
+		default:
+			put("vip:account:b", &acctY)
+			put("vip:balance:Y", &store.Balance{Account: "Y", Credit: *big.NewInt(-2)})
+		}
+		db.Close()
+		if err != nil {
+			return nil, "err raw-write", false
+		}
+		c.prepared = 2
+		if o := c.open(); o != "ok" {
+			return nil, o, false
+		}
+		d := c.dump()
+		// the balances and links sections of the dump
+		i, j := strings.Index(d, "]B["), strings.Index(d, "]L[")
+		if i < 0 || j < 0 {
+			return nil, "err dump", false
+		}
+		st, _ := c.s.Stats()
+		trials := -1
+		if st != nil {
+			trials = st.NumTrialBalances
+		}
+		return nil, fmt.Sprintf("ok B[%s] L[%s trials=%d", d[i+3:strings.Index(d, "]A[")], d[j+3:], trials), true
 	case "open":
 		return nil, c.open(), true
 	case "reopen":
@@ -387,6 +440,19 @@ func (c *persistComp) Gen(r *rand.Rand, idx int, emit func(string)) {
 		default:
 			return fmt.Sprintf("addab+%s+%s", pick(r, accts), pick(r, amounts))
 		}
+	}
+	if idx%7 == 5 {
+		emit(fmt.Sprintf("golden k=%d", (idx/7)%3))
+		for i := 0; i < 3+r.Intn(6); i++ {
+			if r.Intn(4) == 0 {
+				emit("reopen")
+			} else {
+				emit("op " + strings.Replace(encOp(), "+", " ", -1))
+			}
+		}
+		emit("reopen")
+		emit("dump")
+		return
 	}
 	switch idx % 3 {
 	case 0:
